@@ -92,8 +92,20 @@ func (c *Ctx) Sample(s any) {
 }
 
 // Violate records a violation (at most 5 per key per worker are kept).
+// jsonSafe returns x if it can be encoded as JSON (NaN and Inf cannot), else its printed form.
+func jsonSafe(x any) any {
+	if x == nil {
+		return nil
+	}
+	if _, err := json.Marshal(x); err != nil {
+		return fmt.Sprintf("%+v", x)
+	}
+	return x
+}
+
 func (c *Ctx) Violate(v Violation) {
 	v.Property = c.ID
+	v.Case, v.Observed, v.Expected = jsonSafe(v.Case), jsonSafe(v.Observed), jsonSafe(v.Expected)
 	c.Count("violations_raw", 1)
 	c.Count("violation_key:"+v.Key, 1)
 	if c.perKey[v.Key] >= 5 {
@@ -268,7 +280,14 @@ func worker(i, n int, out, id, tier string) (code int) {
 		}()
 		ck.Run(c)
 	}()
-	b, _ := json.Marshal(c.Rep)
+	b, err := json.Marshal(c.Rep)
+	if err != nil {
+		// never lose a worker's verdict to an unencodable value
+		c.Rep.Samples = nil
+		c.Rep.Extra = nil
+		c.Rep.HarnessErr = "report not encodable: " + err.Error()
+		b, _ = json.Marshal(c.Rep)
+	}
 	if err := os.WriteFile(out, b, 0o644); err != nil {
 		fmt.Fprintln(os.Stderr, err)
 		return 2
